@@ -10,7 +10,9 @@ recorded hooks (with start and end time), the handler's ERROR logs and what each
 from __future__ import annotations
 
 import asyncio
+import errno
 import logging
+import os
 
 from mitmproxy import options as moptions
 from mitmproxy.addons import proxyserver
@@ -20,6 +22,56 @@ from vf import vloop
 
 TCP_HOOKS = ("tcp_start", "tcp_message", "tcp_end", "tcp_error")
 LIFECYCLE = ("server_connect", "server_connected", "server_connect_error", "server_disconnected")
+
+
+# what a dying socket can report through StreamWriter.drain() (asyncio stores the transport's fatal error on the stream and
+# re-raises it from every later drain() and read()): three ConnectionError subclasses and four OSErrors that are not
+DRAIN_ERRORS = {
+    "ECONNRESET": lambda: ConnectionResetError(errno.ECONNRESET, os.strerror(errno.ECONNRESET)),
+    "EPIPE": lambda: BrokenPipeError(errno.EPIPE, os.strerror(errno.EPIPE)),
+    "ECONNABORTED": lambda: ConnectionAbortedError(errno.ECONNABORTED, os.strerror(errno.ECONNABORTED)),
+    "ETIMEDOUT": lambda: OSError(errno.ETIMEDOUT, os.strerror(errno.ETIMEDOUT)),  # -> TimeoutError
+    "EHOSTUNREACH": lambda: OSError(errno.EHOSTUNREACH, os.strerror(errno.EHOSTUNREACH)),
+    "ENETUNREACH": lambda: OSError(errno.ENETUNREACH, os.strerror(errno.ENETUNREACH)),
+    "EIO": lambda: OSError(errno.EIO, os.strerror(errno.EIO)),
+}
+NON_CONNECTION = ("ETIMEDOUT", "EHOSTUNREACH", "ENETUNREACH", "EIO")
+# fixed fault matrix: errno class x which socket dies x at which drain() x one-shot / sticky (socket dead: reads fail too)
+DRAIN_MATRIX = [(e, side, when, sticky) for e in DRAIN_ERRORS for side in ("client", "srv0") for when in (1, 2, 3) for sticky in (False, True)]
+
+
+def matrix_plan(r, k):
+    """A plan built around one cell of DRAIN_MATRIX: both peers keep sending after the fault (drain() only runs after data was
+    received), then close / fall silent."""
+    err, side, when, sticky = DRAIN_MATRIX[k % len(DRAIN_MATRIX)]
+
+    def script(tag):
+        acts = [(r.choice([0.01, 0.1, 0.3]), ("data", b"<%s%d:%s>" % (tag.encode(), j, bytes(r.choice(b"abcdefgh") for _ in range(r.choice([0, 3, 20])))))) for j in range(r.choice([3, 4, 5]))]
+        ending = r.choice(["eof", "eof", "silent", "reset"])
+        if ending != "silent":
+            acts.append((r.choice([0.01, 0.3, 2]), (ending,)))
+        return acts, ending
+
+    c_script, c_end = script("c")
+    s_script, s_end = script("s")
+    return {
+        "clean": False,
+        "matrix": (err, side, when, sticky),
+        "mode": r.choice(["regular", "regular", "reverse"]),
+        "connection_strategy": r.choice(["eager", "lazy"]),
+        "connect": "ok",
+        "connect_delay": r.choice([0, 0.01]),
+        "client": c_script,
+        "client_end": c_end,
+        "origin": s_script,
+        "origin_end": s_end,
+        "tcp_timeout": r.choice([600, 5]),
+        "msg_delay": [r.choice([0, 0, 0, 0.2]) for _ in range(4)],
+        "edits": [r.choice(["keep", "keep", "append"]) for _ in range(4)],
+        "hook_delay": {},
+        "lifecycle_delay": {},
+        "drain_fault": (side, when, err, sticky),
+    }
 
 
 class _Addons:
@@ -40,6 +92,8 @@ class _Addons:
                     nl.context.server.address = ("example.com", 80)
                 nl.layer = layers.TCPLayer(nl.context)
             return
+        if self.res.finished:
+            return  # harness clean-up (cancelling what is left after quiescence) is not part of the observed history
         flow = getattr(hook, "flow", None)
         t0 = self.vloop.now()
         rec = {"name": name, "t0": t0, "t1": None, "flow": id(flow) if flow is not None else None, "cancelled": False}
@@ -53,6 +107,8 @@ class _Addons:
         else:
             d = self.plan["hook_delay"].get(name, 0)
         self.res.hooks.append(rec)
+        if flow is not None and name in TCP_HOOKS:
+            self.res.flows[id(flow)] = flow
         try:
             if d:
                 await asyncio.sleep(d)
@@ -90,6 +146,9 @@ class Result:
         self.eof_written = {}
         self.connected = False
         self.drain_errors = []
+        self.flows = {}
+        self.finished = False  # set once the handler has returned and the loop is quiescent
+        self.tasks_left = []
 
     def names(self):
         return [h["name"] for h in self.hooks]
@@ -131,7 +190,7 @@ def gen_plan(r):
         "edits": [r.choice(["keep", "keep", "append", "empty"]) for _ in range(4)],
         "hook_delay": {h: r.choice([0.2, 3]) for h in TCP_HOOKS if h != "tcp_message" and r.random() < 0.25},
         "lifecycle_delay": {} if clean else {h: r.choice([0.2, 3, 6]) for h in LIFECYCLE if r.random() < 0.08},
-        "drain_fault": None if clean or r.random() < 0.75 else (r.choice(["client", "srv0"]), r.randint(1, 6)),
+        "drain_fault": None if clean or r.random() < 0.75 else (r.choice(["client", "srv0"]), r.randint(1, 6), r.choice(list(DRAIN_ERRORS)), r.random() < 0.5),
     }
 
 
@@ -146,20 +205,30 @@ def run_plan(plan):
     plan["hook_delay"] = {**plan["hook_delay"], **plan["lifecycle_delay"]}
     drains = {"client": 0, "srv0": 0}
 
+    readers = {}
+    dead_sockets = {}
+
     def drain_plan_for(name):
         def f():
             drains[name] += 1
+            if name in dead_sockets:
+                return dead_sockets[name]  # the stored transport error is re-raised by every later drain()
             df = plan["drain_fault"]
             if df and df[0] == name and drains[name] == df[1]:
-                res.drain_errors.append((loop.now(), name))
-                return BrokenPipeError("drain failed (injected)")
+                exc = DRAIN_ERRORS[df[2]]()
+                res.drain_errors.append((loop.now(), name, df[2], df[3]))
+                if df[3]:  # the socket is dead: reads report the same error
+                    dead_sockets[name] = exc
+                    if name in readers:
+                        readers[name].feed_error(exc)
+                return exc
             return None
 
         return f
 
     class _Writer(vloop.FakeWriter):
         def close(self):
-            if not self.closed:
+            if not self.closed and not res.finished:
                 res.closed_at[self.name] = loop.now()
             super().close()
 
@@ -199,6 +268,7 @@ def run_plan(plan):
         reader = vloop.FakeReader()
         writer = _Writer(world, "srv0", (host, port), peername=(host, port), sockname=("192.0.2.1", 20000), drain_plan=drain_plan_for("srv0"))
         world.opened(writer)
+        readers["srv0"] = reader
         server_writer[0] = writer
         res.connected = True
         t = loop.create_task(play(plan["origin"], reader, "s", writer))
@@ -211,6 +281,7 @@ def run_plan(plan):
         proxyserver.Proxyserver().load(opts)
         opts.update(tcp_timeout=plan["tcp_timeout"], connection_strategy=plan["connection_strategy"])
         creader = vloop.FakeReader()
+        readers["client"] = creader
         cwriter = _Writer(world, "client", None, peername=("192.0.2.10", 50123), sockname=("192.0.2.1", 8080), drain_plan=drain_plan_for("client"))
         mode = "regular" if plan["mode"] == "regular" else "reverse:tcp://example.com:80"
 
@@ -237,6 +308,8 @@ def run_plan(plan):
         res.deadlock = dead
         if not dead:
             vloop.drain(loop)
+        res.finished = True
+        res.tasks_left = sorted(t.get_name() for t in asyncio.all_tasks(loop) if not t.done())
         res.client_got = bytes(cwriter.buf)
         res.server_got = bytes(server_writer[0].buf) if server_writer[0] is not None else b""
         return res
